@@ -455,6 +455,7 @@ func forgeries(r *core.Rand, sc signedCase) []forgery {
 		f := m
 		f.Options = rm.Mapping{Pairs: append(append([]rm.Pair{}, m.Options.Pairs...), rm.Pair{K: []byte("zzzz"), V: []byte("1")})}
 		out = append(out, forgery{"content-changed-signature-kept", f.Encode()})
+		out = append(out, forgery{"empty-key-pair-spliced-into-options", func() []byte { g := m; g.Options = withEmptyKeyPair(m.Options); return g.Encode() }()})
 		// peer_size altered, signature kept
 		f2 := m
 		f2.PeerSize = byte(1 + r.Pick(255))
@@ -521,6 +522,7 @@ func forgeries(r *core.Rand, sc signedCase) []forgery {
 		f2 := m
 		f2.Flags ^= 2
 		out = append(out, forgery{"flags-changed-signature-kept", f2.Encode()})
+		out = append(out, forgery{"empty-key-pair-spliced-into-options", func() []byte { g := m; g.Options = withEmptyKeyPair(m.Options); return g.Encode() }()})
 	case "metaleaseset":
 		m, _, _, err := rm.DecodeMetaLeaseSet(sc.bytes)
 		if err != nil {
@@ -541,6 +543,7 @@ func forgeries(r *core.Rand, sc signedCase) []forgery {
 		if sc.transient != nil {
 			signer = sc.transient
 		}
+		out = append(out, forgery{"empty-key-pair-spliced-into-options", func() []byte { g := m; g.Options = withEmptyKeyPair(m.Options); return g.Encode() }()})
 		out = append(out, forgery{"wrong-store-prefix-3", resign(m, signer, []byte{rm.StoreLeaseSet2})})
 		out = append(out, forgery{"no-store-prefix", resign(m, signer, nil)})
 		out = append(out, forgery{"signed-by-attacker-key", resign(m, attacker, []byte{rm.StoreMetaLeaseSet})})
@@ -623,4 +626,12 @@ func offlineForgeries(r *core.Rand, sc signedCase, attacker *rm.SigKey, existing
 		out = append(out, offForgery{"offline-transient-type-changed", o3, sc.transient})
 	}
 	return out
+}
+
+// withEmptyKeyPair returns the mapping with one more pair in front whose key is the empty string
+// (which sorts first, so the result is still in canonical order): a change of content that a
+// serialiser dropping such pairs would hide from the signature check.
+func withEmptyKeyPair(m rm.Mapping) rm.Mapping {
+	body := append([]byte{0, '=', 1, 'x', ';'}, m.Body()...)
+	return rm.Mapping{Raw: body}
 }
